@@ -479,3 +479,14 @@ class StlPastifier(LtlPastifier, StlAstVisitor):
 
     def visitDefault(self, node):
         raise RTAMTException('LTL Pastifier: encountered unexpected type of object.')
+
+
+class StlDenseTimePastifier(StlPastifier):
+    # Dense time has no notion of a next sample: the dense-time monitors reject
+    # next / s_next, so they cannot be turned into a delay of one sampling period.
+
+    def visitNext(self, node, *args, **kwargs):
+        raise RTAMTException('Next operator not implemented in STL dense-time monitor.')
+
+    def visitStrongNext(self, node, *args, **kwargs):
+        raise RTAMTException('Strong next operator not implemented in STL dense-time monitor.')
